@@ -15,6 +15,8 @@ def spec(tier, seed):
              "run": lambda f, v, w: _mir.vc_worker_errors_checked(f, v, w)},
             {"name": "save_modified_file: Ok for a live file only after it was created and written", "function": "save_modified_file", "target": "bin",
              "run": lambda f, v, w: _mir.vc_save_writes_content(f, v, w)},
+            {"name": "output functions never use Write::write (short writes)", "function": "save_applied_patches, save_modified_file, save_backup_file, rej / backup passes", "target": "bin",
+             "run": lambda f, v, w: _mir.vc_no_short_write(f, v, w)},
             {"name": "save_applied_patches: the buffered writer is flushed explicitly before Ok", "function": "save_applied_patches", "target": "bin",
              "run": lambda f, v, w: _mir.vc_bufwriter_flushed(f, v, w, r"^save_applied_patches$", "c18f1")},
             {"name": "rollback_and_save_rej_files: the buffered writer is flushed explicitly before Ok", "function": "rollback_and_save_rej_files", "target": "bin",
